@@ -323,6 +323,11 @@ def run_summary(rep, tier, kind, dist):
         ma, sa, loa, hia = obj.mean_fn_amplitude(dist), obj.std_fn_amplitude(dist), obj.nth_std_fn_amplitude(-1, dist), obj.nth_std_fn_amplitude(1, dist)
         rep.prove(ctx, "summary table: fn row and amplitude row list the object's statistics (mean, std, -1 std, +1 std)",
                   terms_equal(data[0], [m, s_, lo, hi]) + terms_equal(data[2], [ma, sa, loa, hia]), witness=W, key="summary-table")
+        if dist == "lognormal":
+            # the period row is the reciprocal view of the object's own fn statistics (for an azimuthal object: under the same azimuth weights)
+            uneq = len({sum(1 for x in st if x == "accepted") for st in status}) > 1
+            rep.prove(ctx, "summary table: the period row lists the reciprocal of the object's median and +-1 std fn and the same log-standard deviation" + (" (azimuths with different accepted counts)" if uneq else ""),
+                      terms_equal(data[1], [1 / Sym.lift(m), s_, 1 / Sym.lift(lo), 1 / Sym.lift(hi)]), witness=W, key="summary-period-row" + (":unequal-counts" if uneq else ""), real=True)
         if dist == "lognormal" and kind == "traditional":
             # independent estimators over the reciprocal peak frequencies of the accepted windows
             h = inner[0]
@@ -648,9 +653,40 @@ def replay(spec):
     try:
         if what.startswith("summary"):
             import io, contextlib
-            with contextlib.redirect_stdout(io.StringIO()):
-                hvsrpy.summarize_hvsr_statistics(obj, distribution_mc=dist, distribution_fn=dist)
+            import hvsrpy.postprocessing as _pp
+            shown, keep, keep_pd = [], _pp.display, _pp.pd
+
+            class _PD:   # pandas as seen by the function: the table is recorded when it is built (the caption may raise afterwards)
+                def __getattr__(self, n):
+                    return getattr(keep_pd, n)
+
+                def DataFrame(self, *a_, **k_):
+                    df = keep_pd.DataFrame(*a_, **k_)
+                    shown.append(df)
+                    return df
+            _pp.display, _pp.pd = (lambda s_, *a_, **k_: None), _PD()
+            try:
+                with contextlib.redirect_stdout(io.StringIO()):
+                    hvsrpy.summarize_hvsr_statistics(obj, distribution_mc=dist, distribution_fn=dist)
+            except ValueError:
+                if not shown:
+                    raise
+            finally:
+                _pp.display, _pp.pd = keep, keep_pd
             lines = None
+            if len(shown) == 1:
+                tab = np.asarray(shown[0].values, dtype=float)
+                st = lambda fn, *a: float(getattr(obj, fn)(*a, distribution=dist))   # noqa
+                rows = [[st("mean_fn_frequency"), st("std_fn_frequency"), st("nth_std_fn_frequency", -1), st("nth_std_fn_frequency", 1)],
+                        [st("mean_fn_amplitude"), st("std_fn_amplitude"), st("nth_std_fn_amplitude", -1), st("nth_std_fn_amplitude", 1)]]
+                close = lambda a, b: np.allclose(np.asarray(a, float), np.asarray(b, float), rtol=1e-9, atol=0, equal_nan=True)   # noqa
+                if tab.shape == (3, 4) and not (close(tab[0], rows[0]) and close(tab[2], rows[1])):
+                    return {"reproduced": True, "key": "summary-table", "detail": f"table rows {tab[0].tolist()} / {tab[2].tolist()} vs the object's statistics {rows}"}
+                if tab.shape == (3, 4) and dist == "lognormal":
+                    per = [1 / rows[0][0], rows[0][1], 1 / rows[0][2], 1 / rows[0][3]]
+                    if not close(tab[1], per):
+                        return {"reproduced": True, "key": "summary-period-row",
+                                "detail": f"period row {tab[1].tolist()} vs reciprocal of the object's fn statistics {per}"}
         else:
             opt = what.split(":")[2] if what.count(":") >= 2 else "default"
             fig, ax = plt.subplots()
@@ -658,7 +694,7 @@ def replay(spec):
             lines = ax.get_lines()
     except Exception as e:   # noqa
         plt.close("all")
-        return {"reproduced": False, "detail": f"function raised {type(e).__name__} on the concrete state"}
+        return {"reproduced": False, "detail": f"function raised {type(e).__name__} ({str(e)[:120]}) on the concrete state {spec.get('status')} fn {spec.get('peak_frq')}"}
     for h, (a, w, p, f) in zip(inner, snap):
         if not (np.array_equal(a, h.amplitude) and np.array_equal(w, h.valid_window_boolean_mask) and np.array_equal(p, h.valid_peak_boolean_mask) and np.array_equal(f, h._main_peak_frq, equal_nan=True)):
             plt.close("all")
@@ -676,7 +712,7 @@ def replay(spec):
             return {"reproduced": True, "key": "lines-vs-windows", "detail": f"{len(acc)} accepted-style lines for {len(want)} accepted windows (or wrong data)"}
         if not ok2:
             return {"reproduced": True, "key": "mean-std-lines", "detail": "mean / std lines differ from the object's statistics"}
-    return {"reproduced": False, "detail": "drawn data and object state as specified"}
+    return {"reproduced": False, "detail": f"drawn data and object state as specified (state {spec.get('status')}, fn {spec.get('peak_frq')})"}
 
 
 def validate(spec):
